@@ -342,7 +342,7 @@ def universes(family, tier, seed):
         if tier == 'thorough':
             jobs += built_jobs(family, tier, seed, n4=-1, chain=-1, chain_max=6, rand=100)
         else:
-            jobs += built_jobs(family, tier, seed, n4=100, chain=40, chain_max=6)
+            jobs += built_jobs(family, tier, seed, n4=300, chain=300, chain_max=6)
         for i, j in enumerate(jobs):
             j['name'] = 'ind%d_%s_%s' % (i, j['mode'], ''.join(k[0] for _, k in j['nodes']) + '_' + ''.join('%s%s' % (u, d) for d, u in j['edges']))
         jobs.sort(key=lambda j: -len(j['nodes']) * 10 - len(j['edges']))
@@ -365,7 +365,7 @@ def universes(family, tier, seed):
             if tier == 'thorough':
                 jobs += built_jobs(family, tier, seed, n4=-1, chain=-1, chain_max=6, rand=100)
             else:
-                jobs += built_jobs(family, tier, seed, n4=100, chain=40, chain_max=6)
+                jobs += built_jobs(family, tier, seed, n4=200, chain=120, chain_max=6)
         else:
             if tier == 'thorough':
                 jobs += built_jobs(family, tier, seed, n4=600, chain=200, chain_max=6)
@@ -387,7 +387,7 @@ def universes(family, tier, seed):
         if tier == 'thorough':
             bj = built_jobs('H-ORDER', tier, seed, n4=-1, chain=-1, chain_max=6, rand=100)
         else:
-            bj = built_jobs('H-ORDER', tier, seed, n4=100, chain=40, chain_max=6)
+            bj = built_jobs('H-ORDER', tier, seed, n4=200, chain=200, chain_max=6)
         for j in bj:
             j['tier'] = 'quick'
             j['seed'] = seed
